@@ -157,6 +157,8 @@ Stats(z) == LET UU == U(z) IN
            fixed_len |-> Cardinality({ t \in UU : FixedLen(t) }),
            in_swaysem |-> Cardinality({ t \in UU : InSwaySem(t) }) ]
 PrintStats(z) == PrintT(<<"STATS", ToJson(Stats(z))>>)
+StatsInit == PrintStats(0) /\ ty = TUnit /\ lvl = 1
+StatsSpec == StatsInit /\ [][Next]_vars
 
 (***************************************************************************)
 (* Mutants of the classification, to show that the statements bind: the    *)
